@@ -278,6 +278,21 @@ def resolve_fn_item(prog, fty):
     return cands[0] if len(cands) == 1 else None
 
 
+def _variant_ctor(prog, fty):
+    """fn item that is the constructor of a tuple variant of a crate enum -> (adt path, variant index, variant name, generic args)"""
+    path = fty.get("path") or ""
+    if "::" not in path:
+        return None
+    apath, vname = path.rsplit("::", 1)
+    adt = prog.adts.get(apath)
+    if adt is None:
+        return None
+    for i, v in enumerate(adt.get("variants", [])):
+        if v.get("name") == vname and len(v.get("fields", [])) == 1:
+            return apath, i, vname, fty.get("args") or []
+    return None
+
+
 def _single_def(rec, local):
     """The only statement / call that writes `local` (whole local), or None."""
     found = []
@@ -356,6 +371,170 @@ def _preds(rec):
         for x in tg:
             pr.setdefault(x, set()).add(bi)
     return pr
+
+
+ADAPTOR_NEXT = {"core::iter::FilterMap": ("<core::iter::FilterMap<I, F> as core::iter::Iterator>::next", "core::iter::Iterator::filter_map"),
+                "core::iter::Filter": ("<core::iter::Filter<I, P> as core::iter::Iterator>::next", "core::iter::Iterator::filter")}
+GENERIC_NEXT = {"core::slice::Iter": "<core::slice::Iter<'a, T> as core::iter::Iterator>::next",
+                "core::slice::IterMut": "<core::slice::IterMut<'a, T> as core::iter::Iterator>::next",
+                "core::iter::Enumerate": "<core::iter::Enumerate<I> as core::iter::Iterator>::next",
+                "core::iter::Skip": "<core::iter::Skip<I> as core::iter::Iterator>::next",
+                "core::iter::Take": "<core::iter::Take<I> as core::iter::Iterator>::next",
+                "core::iter::Rev": "<core::iter::Rev<I> as core::iter::Iterator>::next",
+                "core::iter::Copied": "<core::iter::Copied<I> as core::iter::Iterator>::next",
+                "core::iter::Cloned": "<core::iter::Cloned<I> as core::iter::Iterator>::next",
+                "core::iter::Zip": "<core::iter::Zip<A, B> as core::iter::Iterator>::next",
+                "core::ops::Range": "core::iter::range::<impl core::iter::Iterator for core::ops::Range<A>>::next",
+                "core::ops::RangeInclusive": "core::iter::range::<impl core::iter::Iterator for core::ops::RangeInclusive<A>>::next"}
+
+
+def _uses_of(rec, local):
+    pat = '"local": %d,' % local
+    return sum(json.dumps(bk["stmts"]).count(pat) + json.dumps(bk["term"]).count(pat) for bk in rec["blocks"])
+
+
+def desugar_adaptor_next(rec, prog, stats):
+    """`for y in it.filter_map(f)` / `.filter(p)`: the call of FilterMap::next (Filter::next) is replaced by its definition over the underlying
+    iterator and the closure -
+        loop { match it.next() { None => break None, Some(x) => if let Some(y) = f(x) { break Some(y) } } }
+    - so that the loop reads like the hand-written `for x in it { if let Some(y) = f(x) { .. } }`.  Applied only when the adaptor value is built
+    once, by filter_map / filter on a plain local iterator with a closure literal, and reaches the `next` call through moves, into_iter and
+    re-borrows only (every link is a single definition)."""
+    for bi, blk in enumerate(rec["blocks"]):
+        t = blk["term"]
+        if t["k"] != "call" or t.get("target") is None or len(t.get("args", [])) != 1 or t["dest"]["proj"]:
+            continue
+        c = t.get("resolved") or t.get("callee")
+        kind = [k for k, v in ADAPTOR_NEXT.items() if v[0] == c]
+        if not kind:
+            continue
+        kind = kind[0]
+        a = t["args"][0]
+        if a["k"] != "move" or a["place"]["proj"]:
+            continue
+        # follow the re-borrow chain inside this block down to the adaptor local
+        drop_stmts = []
+        cur = a["place"]["local"]
+        base = None
+        for _ in range(4):
+            d = _single_def(rec, cur)
+            if d is None or d[0] != "stmt" or d[1] != bi or d[3]["rv"]["k"] != "ref" or _uses_of(rec, cur) != 2:
+                break
+            pl = d[3]["rv"]["place"]
+            drop_stmts.append(d[3])
+            if not pl["proj"]:
+                base = pl["local"]
+                break
+            if [x["k"] for x in pl["proj"]] != ["deref"]:
+                break
+            cur = pl["local"]
+        if base is None or rec["locals"][base].get("path") != kind:
+            continue
+        # follow moves / into_iter back to the constructor call
+        chain = []          # (what, block, stmt index / None)
+        cur = base
+        ctor = None
+        for _ in range(6):
+            d = _single_def(rec, cur)
+            if d is None:
+                break
+            if d[0] == "stmt" and d[3]["rv"]["k"] == "use" and d[3]["rv"]["op"]["k"] == "move" and not d[3]["rv"]["op"]["place"]["proj"]:
+                chain.append(d)
+                cur = d[3]["rv"]["op"]["place"]["local"]
+                continue
+            if d[0] == "call":
+                cc = d[3].get("resolved") or d[3].get("callee")
+                if cc.endswith("::into_iter") and len(d[3]["args"]) == 1 and d[3]["args"][0]["k"] == "move" and not d[3]["args"][0]["place"]["proj"]:
+                    chain.append(d)
+                    cur = d[3]["args"][0]["place"]["local"]
+                    continue
+                if (d[3].get("callee") == ADAPTOR_NEXT[kind][1] or cc == ADAPTOR_NEXT[kind][1]) and len(d[3]["args"]) == 2:
+                    ctor = d
+            break
+        if ctor is None:
+            continue
+        it_op, f_op = ctor[3]["args"]
+        if not (it_op["k"] == "move" and not it_op["place"]["proj"] and f_op["k"] == "move" and not f_op["place"]["proj"]):
+            continue
+        itl, fl = it_op["place"]["local"], f_op["place"]["local"]
+        ity, fty = rec["locals"][itl], rec["locals"][fl]
+        if fty.get("k") != "closure" or ity.get("k") != "adt" or ity.get("path") not in GENERIC_NEXT or fty["path"] not in prog.fns:
+            continue
+        cl = prog.fns[fty["path"]].rec
+        if len(cl["locals"]) < 3:
+            continue
+        arg_ty = cl["locals"][2]                     # FilterMap: the item; Filter: &item
+        item_ty = arg_ty if kind.endswith("FilterMap") else (arg_ty.get("to") if arg_ty.get("k") == "ref" else None)
+        if item_ty is None:
+            continue
+        dty = rec["locals"][t["dest"]["local"]]
+        line = t.get("line")
+        # 1. the constructor and the links become no-ops; an into_iter link is kept, applied to the underlying iterator (the shape of a plain
+        #    `for x in it`), and the loop then borrows its result
+        rec["blocks"][ctor[1]]["term"] = {"k": "goto", "target": ctor[3]["target"]}
+        for d in chain:
+            if d[0] == "stmt":
+                rec["blocks"][d[1]]["stmts"] = [x for x in rec["blocks"][d[1]]["stmts"] if x is not d[3]]
+            else:
+                if itl == it_op["place"]["local"]:
+                    nl = len(rec["locals"])
+                    rec["locals"].append(ity)
+                    tt = copy.deepcopy(d[3])
+                    tt["args"] = [{"k": "move", "place": {"local": itl, "proj": []}}]
+                    tt["dest"] = {"local": nl, "proj": []}
+                    tt["cargs"] = [ity]
+                    tt["rargs"] = [ity]
+                    tt.pop("fnop", None)
+                    rec["blocks"][d[1]]["term"] = tt
+                    itl = nl
+                else:
+                    rec["blocks"][d[1]]["term"] = {"k": "goto", "target": d[3]["target"]}
+        blk["stmts"] = [x for x in blk["stmts"] if not any(x is y for y in drop_stmts)]
+        # 2. the definition of next
+        n = len(rec["locals"])
+        opt_item = {"k": "adt", "path": "core::option::Option", "args": [item_ty], "s": "core::option::Option<Item>"}
+        isz = {"k": "int", "bits": 64, "name": "isize"}
+        rec["locals"].extend([{"k": "ref", "mut": True, "to": ity}, opt_item, isz, item_ty, {"k": "tuple", "elems": [arg_ty]}, {"k": "ref", "mut": True, "to": fty},
+                              cl["locals"][0], isz, arg_ty])
+        r, x, dx, item, tup, cr, y, dy, iref = range(n, n + 9)
+        nb = len(rec["blocks"])
+        SW, NONE, SOME, SW2, HIT, UNR = nb, nb + 1, nb + 2, nb + 3, nb + 4, nb + 5
+        blk["stmts"] = list(blk["stmts"]) + [{"k": "assign", "place": {"local": r, "proj": []}, "rv": {"k": "ref", "mut": True, "place": {"local": itl, "proj": []}}, "line": line}]
+        blk["term"] = {"k": "call", "callee": "core::iter::Iterator::next", "resolved": GENERIC_NEXT[ity["path"]], "cargs": [ity], "rargs": ity.get("args", []),
+                       "args": [{"k": "move", "place": {"local": r, "proj": []}}], "dest": {"local": x, "proj": []}, "target": SW, "line": line}
+        rec["blocks"].append({"stmts": [{"k": "assign", "place": {"local": dx, "proj": []}, "rv": {"k": "discr", "place": {"local": x, "proj": []}}, "line": line}],
+                              "term": {"k": "switch", "discr": {"k": "move", "place": {"local": dx, "proj": []}}, "dty": isz, "arms": [[0, NONE], [1, SOME]], "otherwise": UNR, "line": line}})
+        rec["blocks"].append({"stmts": [{"k": "assign", "place": copy.deepcopy(t["dest"]),
+                                         "rv": {"k": "aggregate", "agg": "adt", "path": "core::option::Option", "variant": 0, "vname": "None", "args": dty.get("args", []), "is_enum": True, "ops": []},
+                                         "line": line}], "term": {"k": "goto", "target": t["target"]}})
+        some_stmts = [{"k": "assign", "place": {"local": item, "proj": []},
+                       "rv": {"k": "use", "op": {"k": "move", "place": {"local": x, "proj": [{"k": "downcast", "variant": 1, "name": "Some"}, {"k": "field", "i": 0, "ty": item_ty}]}}}, "line": line}]
+        if kind.endswith("FilterMap"):
+            some_stmts.append({"k": "assign", "place": {"local": tup, "proj": []}, "rv": {"k": "aggregate", "agg": "tuple", "ops": [{"k": "move", "place": {"local": item, "proj": []}}]}, "line": line})
+        else:
+            some_stmts.append({"k": "assign", "place": {"local": iref, "proj": []}, "rv": {"k": "ref", "mut": False, "place": {"local": item, "proj": []}}, "line": line})
+            some_stmts.append({"k": "assign", "place": {"local": tup, "proj": []}, "rv": {"k": "aggregate", "agg": "tuple", "ops": [{"k": "move", "place": {"local": iref, "proj": []}}]}, "line": line})
+        some_stmts.append({"k": "assign", "place": {"local": cr, "proj": []}, "rv": {"k": "ref", "mut": True, "place": {"local": fl, "proj": []}}, "line": line})
+        rec["blocks"].append({"stmts": some_stmts,
+                              "term": {"k": "call", "callee": "core::ops::FnMut::call_mut", "resolved": None, "cargs": [fty, {"k": "tuple", "elems": [arg_ty]}], "rargs": [],
+                                       "args": [{"k": "move", "place": {"local": cr, "proj": []}}, {"k": "move", "place": {"local": tup, "proj": []}}], "dest": {"local": y, "proj": []},
+                                       "target": SW2, "line": line}})
+        if kind.endswith("FilterMap"):
+            rec["blocks"].append({"stmts": [{"k": "assign", "place": {"local": dy, "proj": []}, "rv": {"k": "discr", "place": {"local": y, "proj": []}}, "line": line}],
+                                  "term": {"k": "switch", "discr": {"k": "move", "place": {"local": dy, "proj": []}}, "dty": isz, "arms": [[0, bi], [1, HIT]], "otherwise": UNR, "line": line}})
+            rec["blocks"].append({"stmts": [{"k": "assign", "place": copy.deepcopy(t["dest"]), "rv": {"k": "use", "op": {"k": "move", "place": {"local": y, "proj": []}}}, "line": line}],
+                                  "term": {"k": "goto", "target": t["target"]}})
+        else:
+            rec["blocks"].append({"stmts": [],
+                                  "term": {"k": "switch", "discr": {"k": "move", "place": {"local": y, "proj": []}}, "dty": {"k": "bool"}, "arms": [[0, bi]], "otherwise": HIT, "line": line}})
+            rec["blocks"].append({"stmts": [{"k": "assign", "place": copy.deepcopy(t["dest"]),
+                                             "rv": {"k": "aggregate", "agg": "adt", "path": "core::option::Option", "variant": 1, "vname": "Some", "args": dty.get("args", []), "is_enum": True,
+                                                    "ops": [{"k": "move", "place": {"local": item, "proj": []}}]}, "line": line}],
+                                  "term": {"k": "goto", "target": t["target"]}})
+        rec["blocks"].append({"stmts": [], "term": {"k": "unreachable"}})
+        stats.setdefault(rec["path"], []).append("desugar:" + kind.rsplit("::", 1)[1] + "::next")
+        return True
+    return False
 
 
 def desugar(rec, prog, stats):
@@ -478,6 +657,57 @@ def desugar(rec, prog, stats):
             blk["term"] = {"k": "switch", "discr": {"k": "move", "place": {"local": dsc, "proj": []}}, "dty": {"k": "int", "bits": 64, "name": "isize"},
                            "arms": [[hit[0], nb], [oth[0], nb + 2]], "otherwise": nb + 3, "line": line}
             stats.setdefault(rec["path"], []).append("desugar:" + c.rsplit("::", 1)[1])
+            changed = True
+            continue
+        if c in ("core::result::Result::<T, E>::map_or", "core::option::Option::<T>::map_or") and len(t["args"]) == 3 \
+                and t["args"][0]["k"] in ("move", "copy") and not t["args"][0]["place"]["proj"] and not t["dest"]["proj"]:
+            # r.map_or(d, f)  ->  match r { Ok(v) | Some(v) => f(v), _ => d }        (d is already evaluated: an operand)
+            r = t["args"][0]
+            rl = r["place"]["local"]
+            rty = rec["locals"][rl]
+            d_op, f_ = t["args"][1], t["args"][2]
+            is_opt = c.startswith("core::option")
+            if not (rty.get("k") == "adt" and rty.get("args")):
+                continue
+            hit = (1, "Some") if is_opt else (0, "Ok")
+            oth = 0 if is_opt else 1
+            pay_in = rty["args"][0]
+            line = t.get("line")
+            n = len(rec["locals"])
+            rec["locals"].extend([{"k": "int", "bits": 64, "name": "isize"}, pay_in])
+            dsc, pin = n, n + 1
+            nb = len(rec["blocks"])
+            pre = [{"k": "assign", "place": {"local": pin, "proj": []},
+                    "rv": {"k": "use", "op": {"k": "move", "place": {"local": rl, "proj": [{"k": "downcast", "variant": hit[0], "name": hit[1]}, {"k": "field", "i": 0, "ty": pay_in}]}}}, "line": line}]
+            if f_["k"] == "const" and f_.get("ty", {}).get("k") == "fndef":
+                fpath = resolve_fn_item(prog, f_["ty"])
+                callt = {"k": "call", "callee": f_["ty"]["path"], "resolved": fpath, "cargs": f_["ty"].get("args", []), "rargs": f_["ty"].get("args", []),
+                         "args": [{"k": "move", "place": {"local": pin, "proj": []}}], "dest": copy.deepcopy(t["dest"]), "target": t["target"], "line": line}
+            elif f_["k"] in ("move", "copy") and not f_["place"]["proj"] and rec["locals"][f_["place"]["local"]].get("k") == "closure":
+                tup = len(rec["locals"])
+                rec["locals"].append({"k": "tuple", "elems": [pay_in]})
+                pre.append({"k": "assign", "place": {"local": tup, "proj": []}, "rv": {"k": "aggregate", "agg": "tuple", "ops": [{"k": "move", "place": {"local": pin, "proj": []}}]}, "line": line})
+                callt = {"k": "call", "callee": "core::ops::FnOnce::call_once", "resolved": None, "cargs": [rec["locals"][f_["place"]["local"]], {"k": "tuple", "elems": [pay_in]}], "rargs": [],
+                         "args": [copy.deepcopy(f_), {"k": "move", "place": {"local": tup, "proj": []}}], "dest": copy.deepcopy(t["dest"]), "target": t["target"], "line": line}
+            else:
+                del rec["locals"][n:]
+                continue
+            ctor = _variant_ctor(prog, f_["ty"]) if f_["k"] == "const" and f_.get("ty", {}).get("k") == "fndef" else None
+            if ctor is not None:
+                # the mapped function is a tuple-variant constructor (`Message::Msg1005`): an aggregate, not a call
+                apath_, vi_, vname_, aargs_ = ctor
+                pre.append({"k": "assign", "place": copy.deepcopy(t["dest"]),
+                            "rv": {"k": "aggregate", "agg": "adt", "path": apath_, "variant": vi_, "vname": vname_, "args": aargs_, "is_enum": True,
+                                   "ops": [{"k": "move", "place": {"local": pin, "proj": []}}]}, "line": line})
+                callt = {"k": "goto", "target": t["target"]}
+            rec["blocks"].append({"stmts": pre, "term": callt})
+            rec["blocks"].append({"stmts": [{"k": "assign", "place": copy.deepcopy(t["dest"]), "rv": {"k": "use", "op": copy.deepcopy(d_op)}, "line": line}],
+                                  "term": {"k": "goto", "target": t["target"]}})
+            rec["blocks"].append({"stmts": [], "term": {"k": "unreachable"}})
+            blk["stmts"] = list(blk["stmts"]) + [{"k": "assign", "place": {"local": dsc, "proj": []}, "rv": {"k": "discr", "place": {"local": rl, "proj": []}}, "line": line}]
+            blk["term"] = {"k": "switch", "discr": {"k": "move", "place": {"local": dsc, "proj": []}}, "dty": {"k": "int", "bits": 64, "name": "isize"},
+                           "arms": [[hit[0], nb], [oth, nb + 1]], "otherwise": nb + 2, "line": line}
+            stats.setdefault(rec["path"], []).append("desugar:map_or")
             changed = True
             continue
         if c in ("core::iter::Iterator::try_for_each", "core::iter::Iterator::for_each") and len(t["args"]) == 2 and not t["dest"]["proj"] \
@@ -644,11 +874,40 @@ def desugar(rec, prog, stats):
     return changed
 
 
+def _known_variant(rec, preds, P, y):
+    ps = sorted(preds.get(P, ()))
+    if len(ps) != 1:
+        return None
+    qb = rec["blocks"][ps[0]]
+    t = qb["term"]
+    if t["k"] != "switch" or t["discr"]["k"] not in ("move", "copy") or t["discr"]["place"]["proj"]:
+        return None
+    d = t["discr"]["place"]["local"]
+    src = [st for st in qb["stmts"] if st["k"] == "assign" and st["place"] == {"local": d, "proj": []}]
+    if len(src) != 1 or src[0]["rv"]["k"] != "discr" or src[0]["rv"]["place"] != {"local": y, "proj": []}:
+        return None
+    ks = [v for v, tb in t["arms"] if tb == P]
+    if len(ks) != 1 or t["otherwise"] == P:
+        return None
+    # y must not be written in P before the move (P's statements are the move's block)
+    return ks[0]
+
+
 def thread_jumps(rec, stats):
     """Jump threading for desugared combinator chains:  P: `x = Variant_k(..); goto J`   J: `..; d = discr(x); switch d`
     becomes  P: `x = Variant_k(..); <J's statements>; goto J.arm[k]`.  Only blocks created by this pass' desugaring contain such
     shapes on today's tree (rustc's own MIR has already been simplified), so this is the identity there."""
     changed = False
+    # a goto into an empty block that only jumps on: jump there directly (left behind by inlined closures' return blocks)
+    for pb in rec["blocks"]:
+        if pb["term"]["k"] == "goto":
+            for _ in range(4):
+                jb = rec["blocks"][pb["term"]["target"]]
+                if not jb["stmts"] and jb["term"]["k"] == "goto" and jb is not pb and jb["term"]["target"] != pb["term"]["target"] and not jb.get("cleanup"):
+                    pb["term"] = {"k": "goto", "target": jb["term"]["target"]}
+                    changed = True
+                else:
+                    break
     preds = _preds(rec)
     for J, jb in enumerate(rec["blocks"]):
         t = jb["term"]
@@ -673,6 +932,9 @@ def thread_jumps(rec, stats):
                 if st["k"] == "assign" and st["place"]["local"] == x:
                     if not st["place"]["proj"] and st["rv"]["k"] == "aggregate" and st["rv"].get("is_enum") and isinstance(st["rv"].get("variant"), int):
                         k = st["rv"]["variant"]
+                    elif not st["place"]["proj"] and st["rv"]["k"] == "use" and st["rv"]["op"]["k"] in ("move", "copy") and not st["rv"]["op"]["place"]["proj"]:
+                        # x = move y, and the only way into P is the arm `discr(y) == k` of a switch
+                        k = _known_variant(rec, preds, P, st["rv"]["op"]["place"]["local"])
                     else:
                         k = None
             if k is None:
@@ -887,7 +1149,7 @@ def apply(prog):
                         touched.add(p)
     for p, rec in recs.items():
         for _ in range(6):
-            if not desugar(rec, prog, stats):
+            if not (desugar(rec, prog, stats) | desugar_adaptor_next(rec, prog, stats)):
                 break
             touched.add(p)
     depth_of = {}
